@@ -418,6 +418,7 @@ LEAF_KINDS = ["term", "term", "term", "term", "phrase", "prefix", "wildcard", "t
               "every", "uterm", "uterm"]
 NODE_KINDS = ["and", "or", "or", "andnot", "andmaybe", "require", "dismax", "andwithnot", "const", "boost"]
 DYADIC = [0.5, 2.0, 4.0, 0.25]
+TIEBREAKS = [0.0, 0.0, 0.25, 0.5, 1.0, 2.0]
 
 
 def gen_query(rng, depth=3, allow_zero_boost=False):
@@ -444,7 +445,10 @@ def gen_query(rng, depth=3, allow_zero_boost=False):
         return ["every", rng.choice([None, "t", "u"])]
     kind = rng.choice(NODE_KINDS)
     sub = lambda: gen_query(rng, depth - 1, allow_zero_boost)
-    if kind in ("and", "or", "dismax"):
+    if kind == "dismax":
+        # DisjunctionMax(..., tiebreak=t): every second one carries a non-zero tie-breaker (dyadic, so exact)
+        return [kind, [sub() for _ in range(rng.choice([2, 2, 3, 4]))], rng.choice(TIEBREAKS)]
+    if kind in ("and", "or"):
         return [kind, [sub() for _ in range(rng.choice([2, 2, 3, 4]))]]
     if kind in ("andnot", "andmaybe", "require"):
         return [kind, sub(), sub()]
@@ -480,7 +484,8 @@ def build_query(q):
     if k == "or":
         return query.Or([build_query(x) for x in q[1]])
     if k == "dismax":
-        return query.DisjunctionMax([build_query(x) for x in q[1]])
+        # ["dismax", subs] or ["dismax", subs, tiebreak]
+        return query.DisjunctionMax([build_query(x) for x in q[1]], tiebreak=(q[2] if len(q) > 2 else 0.0))
     if k == "andnot":
         return query.AndNot(build_query(q[1]), build_query(q[2]))
     if k == "andmaybe":
@@ -524,10 +529,12 @@ def subqueries(q):
             out.append(x)
         if len(q[1]) > 2:
             for i in range(len(q[1])):
-                out.append([k, q[1][:i] + q[1][i + 1:]])
+                out.append([k, q[1][:i] + q[1][i + 1:]] + q[2:])
         for i, x in enumerate(q[1]):
             for y in subqueries(x):
-                out.append([k, q[1][:i] + [y] + q[1][i + 1:]])
+                out.append([k, q[1][:i] + [y] + q[1][i + 1:]] + q[2:])
+        if k == "dismax" and len(q) > 2 and q[2]:
+            out.append([k, q[1], 0.0])
     elif k in ("andnot", "andmaybe", "require"):
         out.append(q[1])
         out.append(q[2])
